@@ -33,6 +33,7 @@ def showKind : ErrKind → String
   | .dupIndex => "dup-target"
   | .dupRef => "dup-ref"
   | .unknownArray => "unknown-array"
+  | .invalidIndex => "invalid-index"
 
 def showExc : PyExc → String
   | .osError => "exc:OSError"
@@ -124,7 +125,6 @@ def stepLine (st : St) (line : String) : St × String :=
       let ps := sortStrings (b.param.map (fun kv => s!"{encStr kv.1}:{showDesc kv.2}"))
       let ds := sortStrings (b.data.map (fun kv => s!"{encStr kv.1}:{kv.2}"))
       ({ st with bind := b }, s!"ok par={joinComma ps} data={joinComma ds}")
-    | .error .valueError => ({ st with bind := { param := [], data := [] } }, "exc:ValueError")
     | .error (.parse e) =>
       ({ st with bind := { param := [], data := [] } },
        s!"exc:ParseException {encStr e.file} {e.line} {showKind e.kind} {encStr e.label} {encStr e.extra}")
